@@ -1,8 +1,9 @@
 """K7 contract (C12 / C01): wire_router.plan_wire_colors.
 
 If the planner reports a bipartite (conflict-free) colouring, then any two different producers of one signal name
-that feed the same consumer — and are not members of one intended wire merge — are on different colours, every
-producer has a colour, and locked colours are respected.  The function works on concrete lists/dicts of tuples
+that feed the same consumer — and are not members of one intended wire merge — are on different colours, and so are a
+BUNDLE wire (it carries every signal of the bundle) and any other producer at the same consumer; every producer has a
+colour, and locked colours are respected.  The function works on concrete lists/dicts of tuples
 (outside the symbolic executor's subset), so the contract's executable twin is evaluated on the REAL function over
 an enumerated box of edge sets: bounded, labelled as such."""
 from __future__ import annotations
@@ -22,6 +23,15 @@ def _conflict_pairs(edges):
             continue
         groups.setdefault((e.sink_entity_id, e.resolved_signal_name), []).append(((e.source_entity_id, e.resolved_signal_name), e.originating_merge_id))
     pairs = set()
+    # a BUNDLE wire carries every signal of the bundle: at a common consumer it competes with any other producer, whatever its signal is called
+    by_sink = {}
+    for e in edges:
+        if e.source_entity_id:
+            by_sink.setdefault(e.sink_entity_id, []).append(((e.source_entity_id, e.resolved_signal_name), e.originating_merge_id))
+    for members in by_sink.values():
+        for (a, ma), (b, mb) in itertools.combinations(members, 2):
+            if a[0] != b[0] and "bundle" in (a[1], b[1]) and not (ma is not None and ma == mb):
+                pairs.add(tuple(sorted((a, b))))
     for members in groups.values():
         first = {}
         for node, merge in members:
@@ -55,7 +65,7 @@ CONTRACTS = [plan_colors]
 
 def arg_sets(tier):
     from dsl_compiler.src.layout.wire_router import CircuitEdge
-    srcs, sinks, sigs, merges = ("A", "B", "C"), ("X", "Y"), ("s", "t"), (None, "m1")
+    srcs, sinks, sigs, merges = ("A", "B", "C"), ("X", "Y"), ("s", "t", "bundle"), (None, "m1")
     universe = [(s, k, g, m) for s in srcs for k in sinks for g in sigs for m in merges]
     out = []
     kmax = 3 if tier == "quick" else 4
